@@ -5,7 +5,8 @@ MODEL = 'disp'
 RULE = ('seeded random scenarios: 1-5 handler classes (single mapping lineage + mixins, decorator with '
         'positional and keyword mappings), 1-5 handler objects with scripted __hash__ (permutes the set '
         'order), 1-25 top-level add/remove/dispatch/is_handler operations and scripted re-entrant '
-        'reactions (add/remove/dispatch/raise from inside callbacks).  Non-trivial: at least one callback '
+        'reactions (add/remove/dispatch/raise from inside callbacks); one scenario in four also toggles '
+        'dispatch_enabled from the top level and from callbacks and ends enabled.  Non-trivial: at least one callback '
         'was delivered; distinct by hash of the scenario text.')
 ASSUMPTIONS = ['handler class hierarchies carry __events__ along a single lineage (multi-lineage MRO '
                'lookup is unspecified by the property, DESIGN §2)',
@@ -15,14 +16,24 @@ KINDS = ['add', 'add', 'remove', 'dispatch', 'dispatch', 'dispatch', 'ishandler'
 
 def generate(rng, tier):
     n = 400 if tier == 'quick' else 8000
-    for _ in range(n):
+    for i in range(n):
         lines, objs, mapping_of = gen_disp.gen_universe(rng)
-        lines += gen_disp.gen_reactions(rng, objs, mapping_of, ['add', 'remove', 'dispatch'])
+        # one scenario in four also switches dispatching off and on again (from the top level and from
+        # inside callbacks, which may raise half-way through a release): "while dispatching is enabled"
+        # covers every history that ends up enabled, not only the ones that never disabled
+        toggles = i % 4 == 3
+        rk = ['add', 'remove', 'dispatch'] + (['enable'] if toggles else [])
+        lines += gen_disp.gen_reactions(rng, objs, mapping_of, rk, raise_p=0.3 if toggles else 0.15)
         for o in objs:
             if rng.random() < 0.7:
                 lines.append(f'op add {o}')
+        kinds = KINDS + (['enable', 'enable'] if toggles else [])
         for _ in range(rng.randint(1, 25)):
-            lines.append('op ' + gen_disp.gen_op(rng, objs, KINDS))
+            lines.append('op ' + gen_disp.gen_op(rng, objs, kinds))
+        if toggles:
+            lines += ['op enable 1', 'op enable 1']
+            for _ in range(rng.randint(1, 4)):
+                lines.append('op ' + gen_disp.gen_op(rng, objs, ['dispatch']))
         yield lines
 
 
